@@ -348,13 +348,25 @@ func runForged(run *ev.Run, j int) {
 		run.Count("forged_strings", fg.Op)
 		run.Observed("forged-op:" + fg.Op)
 		// the same ciphertext in another spelling (non-canonical base64 tail bits, ignored CR/LF) is the same token
-		equivalent := false
+		grey := ""
 		for v := range live {
 			if sameTokenOtherSpelling(fg.Str, v) {
-				equivalent = true
-				run.Count("forged_equivalent_encoding", fg.Op)
+				grey = "equivalent-encoding"
 			}
 		}
+		// vstore's token ids are sequential (guessable), real ones are not: a flipped id digit can name ANOTHER live token
+		// of the same subject; the string then is that token's content under the provider's key - counted, not judged
+		if grey == "" {
+			if id, sub, ok := f.w.OpaqueTokenID(fg.Str); ok && id != f.v1ID {
+				if rec, found := f.w.Store.TokenRecord(id); found && rec.Subject == sub && f.w.Store.TokenLive(id) {
+					grey = "names-another-live-token"
+				}
+			}
+		}
+		if grey != "" {
+			run.Count("forged_grey_class", grey+":"+fg.Op)
+		}
+		equivalent := grey != ""
 		fire := func(endpoint, what string, resp *opdrv.Resp) {
 			f.honoured++
 			run.Violation("C08:forged:"+fg.Op+":"+endpoint, caseIdx, what, witness(fg, map[string]any{"response": resp.Brief(), "endpoint": endpoint}))
@@ -368,11 +380,11 @@ func runForged(run *ev.Run, j int) {
 		}
 		resp := f.userinfo(variant, fg.Str)
 		run.Eval()
-		if !f.panicked(resp, caseIdx, "userinfo with forged token ("+fg.Op+")", witness(fg, nil)) {
+		if !f.panicked(resp, caseIdx, "userinfo with forged token ("+fg.Op+")", func() any { return witness(fg, nil) }) {
 			run.Count("forged_userinfo", fmt.Sprintf("%s:%d", fg.Op, resp.Status))
 			if resp.Status == 200 {
 				if equivalent {
-					run.Count("forged_grey", "equivalent-encoding-honoured:userinfo")
+					run.Count("forged_grey", grey+"-honoured:userinfo")
 				} else {
 					fire("userinfo", "userinfo returned claims for a forged token string", resp)
 				}
@@ -385,11 +397,11 @@ func runForged(run *ev.Run, j int) {
 		}
 		resp = f.introspect(fg.Str, f.basic(owner))
 		run.Eval()
-		if !f.panicked(resp, caseIdx, "introspection of forged token ("+fg.Op+")", witness(fg, nil)) {
+		if !f.panicked(resp, caseIdx, "introspection of forged token ("+fg.Op+")", func() any { return witness(fg, nil) }) {
 			switch {
 			case saysActive(resp):
 				if equivalent {
-					run.Count("forged_grey", "equivalent-encoding-honoured:introspect")
+					run.Count("forged_grey", grey+"-honoured:introspect")
 				} else {
 					fire("introspect", "introspection reports a forged token string active", resp)
 				}
@@ -401,30 +413,26 @@ func runForged(run *ev.Run, j int) {
 				run.Count("forged_introspect", fmt.Sprintf("status_%d:%s", resp.Status, fg.Op))
 			}
 		}
-		// token exchange: as subject; sampled as actor next to a live subject
-		resp = f.exchange(teParams{Subject: fg.Str, SubjectType: fg.Type, Requested: pick(r, "", tAccess, tID)}, "web")
-		run.Eval()
-		if !f.panicked(resp, caseIdx, "token exchange with forged subject token ("+fg.Op+")", witness(fg, nil)) {
-			run.Count("forged_exchange", fmt.Sprintf("subject:%d:%s", resp.Status, resp.OAuthError()))
-			if teSuccess(resp) != nil {
-				if equivalent {
-					run.Count("forged_grey", "equivalent-encoding-honoured:token_exchange")
-				} else {
+		// token exchange: as subject; sampled as actor next to a live subject. Grey strings are not sent: they may
+		// legitimately succeed and would mint further tokens for the victims' subjects in this world.
+		requested := pick(r, "", tAccess, tID)
+		if !equivalent {
+			resp = f.exchange(teParams{Subject: fg.Str, SubjectType: fg.Type, Requested: requested}, "web")
+			run.Eval()
+			if !f.panicked(resp, caseIdx, "token exchange with forged subject token ("+fg.Op+")", func() any { return witness(fg, nil) }) {
+				run.Count("forged_exchange", fmt.Sprintf("subject:%d:%s", resp.Status, resp.OAuthError()))
+				if teSuccess(resp) != nil {
 					fire("token_exchange_subject", "token exchange accepted a forged subject token", resp)
 				}
 			}
 		}
-		if n%4 == 0 {
+		if !equivalent && n%4 == 0 {
 			resp = f.exchange(teParams{Subject: f.v2.Access, SubjectType: tAccess, Actor: fg.Str, ActorType: fg.Type}, "webj")
 			run.Eval()
-			if !f.panicked(resp, caseIdx, "token exchange with forged actor token ("+fg.Op+")", witness(fg, nil)) {
+			if !f.panicked(resp, caseIdx, "token exchange with forged actor token ("+fg.Op+")", func() any { return witness(fg, nil) }) {
 				run.Count("forged_exchange", fmt.Sprintf("actor:%d:%s", resp.Status, resp.OAuthError()))
 				if teSuccess(resp) != nil {
-					if equivalent {
-						run.Count("forged_grey", "equivalent-encoding-honoured:token_exchange")
-					} else {
-						fire("token_exchange_actor", "token exchange accepted a forged actor token", resp)
-					}
+					fire("token_exchange_actor", "token exchange accepted a forged actor token", resp)
 				}
 			}
 		}
@@ -432,7 +440,7 @@ func runForged(run *ev.Run, j int) {
 		if fg.Type == tID && fg.Class == "derived" && !equivalent {
 			resp = f.endSession(fg.Str, pick(r, "", "web"), "", "")
 			run.Eval()
-			if !f.panicked(resp, caseIdx, "end_session with forged id_token_hint ("+fg.Op+")", witness(fg, nil)) {
+			if !f.panicked(resp, caseIdx, "end_session with forged id_token_hint ("+fg.Op+")", func() any { return witness(fg, nil) }) {
 				run.Count("forged_end_session", fmt.Sprintf("%s:%d", fg.Op, resp.Status))
 				if dead := f.victimsLive(); dead != "" {
 					fire("end_session", "end_session with a forged id_token_hint terminated the session: "+dead+" is dead", resp)
@@ -445,7 +453,7 @@ func runForged(run *ev.Run, j int) {
 			hint := []string{"", "access_token", "refresh_token", "id_token"}[n%4]
 			resp = f.revoke(fg.Str, hint, f.basic("web2"))
 			run.Eval()
-			if !f.panicked(resp, caseIdx, "revocation of forged token ("+fg.Op+")", witness(fg, nil)) {
+			if !f.panicked(resp, caseIdx, "revocation of forged token ("+fg.Op+")", func() any { return witness(fg, nil) }) {
 				run.Count("forged_revoke", fmt.Sprintf("%s:%d", fg.Class, resp.Status))
 				if fg.Class == "garbage" {
 					if resp.Status != 200 {
